@@ -66,7 +66,8 @@ def main():
                     [(int, float)], [str, (list, (int,))], [(), bool], [(int, 3)], [[int]], [(str,), 3]]:
             add("isinstance", a, list(cls), o=obs(lambda: isinstance(a, tuple(cls))))
     for s in ["", "0", "7", " 7 ", "-2", "+5", "1_0", "_1", "1_", "1__0", "x3", "1.5", "007", "- 1", "12345678", "true", " "] + \
-            gen.STRS_WIDE + ["\t", "\n 7\t", "\x1c7\x1d", "7\x1e\x1f", "\r+1_1\r", " -0 ", "+-1", "1 _0", "\x0c"]:
+            gen.STRS_WIDE + ["fal\u017fe", "TRUE\u2003", "\u00a07", "\u0663", "1\uff13", "\u00c9", "\u00e9t\u00e9", "stra\u00dfe", "\u00a0\u2003", "\uff13_\u0663",
+             "\t", "\n 7\t", "\x1c7\x1d", "7\x1e\x1f", "\r+1_1\r", " -0 ", "+-1", "1 _0", "\x0c"]:
         try:
             add("int", s, o="T", n=int(s))
         except ValueError:
